@@ -812,6 +812,9 @@ func sameKind(a, b Value) bool {
 
 // cellRead reads one scalar leaf at a possibly symbolic leaf offset.
 func (ex *Exec) cellRead(o *Object, off *Term) Value {
+	if ex.sharedAccess(o) {
+		return ex.threads.readEvent(ex, o, off)
+	}
 	if off.IsConst() {
 		if off.Val >= uint64(len(o.Cells)) {
 			ex.unsupported("internal: cell read out of object (%d of %d)", off.Val, len(o.Cells))
@@ -851,6 +854,9 @@ func (ex *Exec) cellRead(o *Object, off *Term) Value {
 }
 
 func (ex *Exec) cellWrite(o *Object, off *Term, v Value) {
+	if ex.sharedAccess(o) && ex.threads.writeEvent(ex, o, off, v) {
+		return
+	}
 	if off.IsConst() {
 		if off.Val >= uint64(len(o.Cells)) {
 			ex.unsupported("internal: cell write out of object (%d of %d)", off.Val, len(o.Cells))
@@ -892,6 +898,9 @@ func (ex *Exec) load(p *PtrVal, t types.Type) Value {
 	}
 	if k == 1 {
 		return ex.pack(t, []Value{ex.cellRead(p.Obj, p.Off)})
+	}
+	if ex.sharedAccess(p.Obj) {
+		ex.unsupported("aggregate load of shared memory in thread mode")
 	}
 	off := p.Off
 	if !off.IsConst() {
